@@ -53,29 +53,30 @@ GInitR == /\ Idle
           /\ shut = -1
           /\ done = FALSE
 
-RandScript(i) ==
-    LET k   == RandomElement({"open", "cancel"})
-        t   == RandomElement(ACCEPT)
-        d   == RandomElement(DELAY \cup {NEVER})
-        res == IF d = NEVER THEN "none" ELSE RandomElement({"ok", "err"})
-        q   == RandomElement(QTY)
+\* every draw is bound once through a singleton set (a LET would re-draw at each reference)
+RandScript(i, k, t, d, okerr, q, in, sd, p, bn, f) ==
+    LET res == IF d = NEVER THEN "none" ELSE okerr
     IN  IF k = "open"
-        THEN [id |-> i, k |-> k, at |-> t, d |-> d, res |-> res, inst |-> RandomElement(INST),
-              side |-> RandomElement(SIDE), price |-> RandomElement(PRICE), qty |-> q,
-              b |-> RandomElement(BUNDLE), fill |-> IF res = "ok" THEN RandomElement({0, q, RandomElement(0..q)}) ELSE 0]
-        ELSE [id |-> i, k |-> k, at |-> t, d |-> d, res |-> res, inst |-> RandomElement(INST),
+        THEN [id |-> i, k |-> k, at |-> t, d |-> d, res |-> res, inst |-> in,
+              side |-> sd, price |-> p, qty |-> q, b |-> bn, fill |-> IF res = "ok" THEN f ELSE 0]
+        ELSE [id |-> i, k |-> k, at |-> t, d |-> d, res |-> res, inst |-> in,
               side |-> "none", price |-> 0, qty |-> 0, b |-> "none", fill |-> 0]
 
 GSize == /\ ~done /\ n = 0
-         /\ n' = RandomElement(NS)
+         /\ \E m \in {RandomElement(NS)} : n' = m
          /\ UNCHANGED <<now, running, req, pending, out, scn, shut, done>>
 
 GDraw == /\ ~done /\ n > 0 /\ Len(scn) < n
-         /\ scn' = Append(scn, RandScript(Len(scn) + 1))
+         /\ \E k \in {RandomElement({"open", "cancel"})}, t \in {RandomElement(ACCEPT)},
+               d \in {RandomElement(DELAY \cup {NEVER})}, okerr \in {RandomElement({"ok", "err"})},
+               q \in {RandomElement(QTY)}, in \in {RandomElement(INST)}, sd \in {RandomElement(SIDE)},
+               p \in {RandomElement(PRICE)}, bn \in {RandomElement(BUNDLE)}, fc \in {RandomElement(0..2)} :
+               \E f \in {IF fc = 0 THEN 0 ELSE IF fc = 1 THEN q ELSE RandomElement(0..q)} :
+                  scn' = Append(scn, RandScript(Len(scn) + 1, k, t, d, okerr, q, in, sd, p, bn, f))
          /\ UNCHANGED <<now, running, req, pending, out, n, shut, done>>
 
 GFinishR == /\ ~done /\ n > 0 /\ Len(scn) = n
-            /\ shut' = LET x == RandomElement(SHUT) IN IF x >= 9000 THEN -1 ELSE x
+            /\ \E x \in {RandomElement(SHUT)} : shut' = IF x >= 9000 THEN -1 ELSE x
             /\ done' = TRUE
             /\ UNCHANGED <<now, running, req, pending, out, scn, n>>
 
